@@ -169,7 +169,7 @@ def run(sc, tape):
     def _mutex_kind():
         # one specific history has its own signature (known_findings.json): a cleanup pass computed its expiry time, the wall
         # clock was then set back, a lock taken after that looked ten minutes old to the pass and was unlinked
-        return 'mutex-cleanup-pass-straddles-clock-step' if straddled[0] else 'mutex'
+        return 'cleanup-pass-straddles-clock-step' if straddled[0] else 'mutex'
 
     if (sc.get('tilelocker') or {}).get('clock_back'):
         import mapproxy.util.lock as _mlock
@@ -355,7 +355,10 @@ def run(sc, tape):
     else:
         msg = check_timeouts(sc, events, log, flock_failed, path)
         if msg:
-            violation = {'sig': 'C07:spurious-timeout:%s' % style, 'msg': msg}
+            # (the same listed history can also show as a time-out: the straddling pass unlinks the file a contender has just
+            # locked, its inode check fails and a time-out of 0 expires)
+            violation = {'sig': 'C07:%s:%s' % ('cleanup-pass-straddles-clock-step' if straddled[0] else 'spurious-timeout', style),
+                         'msg': msg}
 
     contended = sum(1 for e in log if e[1] == 'slept' and e[0] < len(sc['contenders']))
     ntimeouts = sum(1 for e in events if e[2] == 'timeout')
